@@ -4,8 +4,12 @@
 (* C11): a reader that delivers the bytes of Data one read() at a time and  *)
 (* may answer Interrupted any number of times, or fail with an I/O error at *)
 (* offset FailAt; the scanner of decode/scanner.rs (one current byte `cur`, *)
-(* a peek stash, is_eof) on top of it; and on top of the scanner the lazy   *)
-(* row loop of decode/complex/grid.rs for a grid body of number cells:      *)
+(* a peek stash, last_peek, is_eof) on top of it; on top of the scanner the *)
+(* lexer's handling of a token that starts with a digit (lexer.rs           *)
+(* parse_number_date_time: up to four non-consuming peeks to tell a number  *)
+(* from a date or a time, is_eof cleared again when a peek met the end);    *)
+(* and on top of the lexer the lazy row loop of decode/complex/grid.rs for   *)
+(* a grid body of number cells:                                             *)
 (*      row := cell ("," cell)* NL        cell := [digit+]                  *)
 (* The machine is written as it is MEANT to work (bounds and end-of-input   *)
 (* exits the property demands); the implementation is bound to it by the    *)
@@ -37,22 +41,28 @@ VARIABLES Data,        \* the input, chosen initially
           off,         \* bytes delivered by the reader so far
           intr,        \* consecutive Interrupted answers
           cur, hasCur, \* the scanner's current byte
-          stash,       \* peeked bytes not yet consumed
+          stash,       \* peeked bytes not yet consumed (scanner.next)
+          lastPeek,    \* scanner.last_peek
           eof,         \* scanner.is_eof
           consumed,    \* bytes that have been `cur` and were advanced past
           want,        \* pending scanner request: "none" | "read" | "peek"
-          pc,          \* row loop program counter
+          pc,          \* row loop / lexer program counter
+          k,           \* lexer: peeks made while classifying a token that starts with a digit (number / date / time)
+          tok, tokctx, \* lexer: digits of the token being read; "cell" = a cell of the current row, "ahead" = the first
+                       \*        token after a row's newline, read before that row is handed out
           cell, row, rows,   \* digits of the current cell, cells of the current row, rows handed out
           yieldedAt,   \* value of `off` when each row was handed out
           err
-vars == <<Data, FailAt, off, intr, cur, hasCur, stash, eof, consumed, want, pc, cell, row, rows, yieldedAt, err>>
+vars == <<Data, FailAt, off, intr, cur, hasCur, stash, lastPeek, eof, consumed, want, pc, k, tok, tokctx, cell, row, rows, yieldedAt, err>>
+lexvars == <<k, tok, tokctx>>
 
 IsDigit(b) == b >= 48 /\ b <= 57
 NL == 10
 COMMA == 44
 
 Init == /\ Data \in Datas /\ FailAt \in -1..Len(Data)
-        /\ off = 0 /\ intr = 0 /\ cur = 0 /\ hasCur = FALSE /\ stash = <<>> /\ eof = FALSE /\ consumed = <<>>
+        /\ off = 0 /\ intr = 0 /\ cur = 0 /\ hasCur = FALSE /\ stash = <<>> /\ lastPeek = 255 /\ eof = FALSE /\ consumed = <<>>
+        /\ k = 0 /\ tok = <<>> /\ tokctx = "cell"
         /\ want = "read"                     \* Scanner::make reads the first byte
         /\ pc = "make" /\ cell = <<>> /\ row = <<>> /\ rows = <<>> /\ yieldedAt = <<>> /\ err = "none"
 
@@ -64,29 +74,29 @@ ServeFromStash ==
     /\ consumed' = IF hasCur THEN Append(consumed, cur) ELSE consumed
     /\ cur' = Head(stash) /\ hasCur' = TRUE /\ stash' = Tail(stash)
     /\ want' = "none"
-    /\ UNCHANGED <<off, intr, eof, pc, cell, row, rows, yieldedAt, err>>
+    /\ UNCHANGED <<off, intr, eof, lastPeek, pc, cell, row, rows, yieldedAt, err>> /\ UNCHANGED lexvars
 NeedsReader == Pending /\ ~(want = "read" /\ stash # <<>>)
 ReadInterrupted ==
     /\ NeedsReader /\ intr < MaxIntr /\ off # FailAt
     /\ intr' = intr + 1                       \* read_exact retries: nothing else changes
-    /\ UNCHANGED <<off, cur, hasCur, stash, eof, consumed, want, pc, cell, row, rows, yieldedAt, err>>
+    /\ UNCHANGED <<off, cur, hasCur, stash, lastPeek, eof, consumed, want, pc, cell, row, rows, yieldedAt, err>> /\ UNCHANGED lexvars
 ReadOk ==
     /\ NeedsReader /\ off < Len(Data) /\ off # FailAt
     /\ off' = off + 1 /\ intr' = 0
     /\ IF want = "read"
        THEN /\ consumed' = IF hasCur THEN Append(consumed, cur) ELSE consumed
-            /\ cur' = Data[off + 1] /\ hasCur' = TRUE /\ UNCHANGED stash
-       ELSE /\ stash' = Append(stash, Data[off + 1]) /\ UNCHANGED <<cur, hasCur, consumed>>
+            /\ cur' = Data[off + 1] /\ hasCur' = TRUE /\ UNCHANGED <<stash, lastPeek>>
+       ELSE /\ stash' = Append(stash, Data[off + 1]) /\ lastPeek' = Data[off + 1] /\ UNCHANGED <<cur, hasCur, consumed>>
     /\ want' = "none"
-    /\ UNCHANGED <<eof, pc, cell, row, rows, yieldedAt, err>>
+    /\ UNCHANGED <<eof, pc, cell, row, rows, yieldedAt, err>> /\ UNCHANGED lexvars
 ReadEof ==
     /\ NeedsReader /\ off = Len(Data) /\ off # FailAt
     /\ eof' = TRUE /\ want' = "none" /\ intr' = 0          \* UnexpectedEof: is_eof set, cur unchanged
-    /\ UNCHANGED <<off, cur, hasCur, stash, consumed, pc, cell, row, rows, yieldedAt, err>>
+    /\ UNCHANGED <<off, cur, hasCur, stash, lastPeek, consumed, pc, cell, row, rows, yieldedAt, err>> /\ UNCHANGED lexvars
 ReadFail ==
     /\ NeedsReader /\ off = FailAt
     /\ err' = "io" /\ want' = "none"
-    /\ UNCHANGED <<off, intr, cur, hasCur, stash, eof, consumed, pc, cell, row, rows, yieldedAt>>
+    /\ UNCHANGED <<off, intr, cur, hasCur, stash, lastPeek, eof, consumed, pc, cell, row, rows, yieldedAt>> /\ UNCHANGED lexvars
 
 \* ---- the row loop over the scanner (runs only when no request is pending) ----
 Idle == want = "none" /\ err = "none"
@@ -94,60 +104,64 @@ Ask(kind) == want' = kind
 AtEnd == eof \/ ~hasCur
 
 \* after Scanner::make: start the first row
+scan == <<off, intr, cur, hasCur, stash, lastPeek, consumed>>      \* scanner state only reader actions change
 Made == /\ Idle /\ pc = "make" /\ pc' = "cellstart"
-        /\ UNCHANGED <<off, intr, cur, hasCur, stash, eof, consumed, want, cell, row, rows, yieldedAt, err>>
+        /\ UNCHANGED <<scan, eof, want, cell, row, rows, yieldedAt, err>> /\ UNCHANGED lexvars
 
-\* at the start of a cell: a digit starts a number, a comma ends an (empty) cell, a newline ends the row,
-\* end of input ends the grid (a cut-off row is an error: "Unterminated Row")
+\* at the start of a cell: a digit starts a token the lexer must classify, a comma ends an (empty) cell, a newline
+\* ends the row, end of input ends the grid (a cut-off row is an error: "Unterminated Row")
 CellStart ==
     /\ Idle /\ pc = "cellstart"
     /\ IF AtEnd THEN
           /\ pc' = "done" /\ err' = (IF row # <<>> \/ cell # <<>> THEN "unterminated row" ELSE "none")
-          /\ UNCHANGED <<want, cell, row, rows, yieldedAt>>
+          /\ UNCHANGED <<want, cell, row, rows, yieldedAt>> /\ UNCHANGED lexvars
        ELSE IF IsDigit(cur) THEN
-          /\ cell' = <<cur>> /\ pc' = "number" /\ Ask("read") /\ UNCHANGED <<row, rows, yieldedAt, err>>
+          /\ pc' = "classify" /\ k' = 0 /\ tok' = <<>> /\ tokctx' = "cell" /\ UNCHANGED <<want, cell, row, rows, yieldedAt, err>>
        ELSE IF cur = COMMA THEN
-          /\ row' = Append(row, cell) /\ cell' = <<>> /\ Ask("read") /\ UNCHANGED <<pc, rows, yieldedAt, err>>
+          /\ row' = Append(row, cell) /\ cell' = <<>> /\ Ask("read") /\ UNCHANGED <<pc, rows, yieldedAt, err>> /\ UNCHANGED lexvars
        ELSE IF cur = NL THEN
-          /\ pc' = "afternl" /\ Ask("read") /\ UNCHANGED <<cell, row, rows, yieldedAt, err>>
-       ELSE /\ pc' = "done" /\ err' = "unexpected byte" /\ UNCHANGED <<want, cell, row, rows, yieldedAt>>
-    /\ UNCHANGED <<off, intr, cur, hasCur, stash, eof, consumed>>
+          /\ pc' = "afternl" /\ Ask("read") /\ UNCHANGED <<cell, row, rows, yieldedAt, err>> /\ UNCHANGED lexvars
+       ELSE /\ pc' = "done" /\ err' = "unexpected byte" /\ UNCHANGED <<want, cell, row, rows, yieldedAt>> /\ UNCHANGED lexvars
+    /\ UNCHANGED <<scan, eof>>
 
-\* inside a number: digits are consumed one by one; the first non-digit (one byte of look-ahead) ends the token
+\* lexer.rs parse_number_date_time: a token that starts with a digit may be a number, a date or a time; the lexer
+\* peeks - without consuming - while it sees digits, at most four times, then decides. End of input during a peek
+\* sets is_eof, which the lexer clears again: the peeked bytes are still to be consumed.
+Classify ==
+    /\ Idle /\ pc = "classify"
+    /\ LET look == IF k = 0 THEN cur ELSE lastPeek IN
+       IF k < 4 /\ IsDigit(look) /\ ~eof
+       THEN /\ k' = k + 1 /\ Ask("peek") /\ UNCHANGED <<pc, eof, tok, tokctx>>
+       ELSE /\ pc' = "number" /\ eof' = FALSE /\ UNCHANGED <<want, k, tok, tokctx>>
+    /\ UNCHANGED <<scan, cell, row, rows, yieldedAt, err>>
+
+\* inside a number: digits are consumed one by one (from the stash first); the first non-digit ends the token.
+\* A token read in a cell is that cell; a token read ahead (first token after a row's newline) completes the hand-out
+\* of the row before it and becomes the first cell of the next row.
 Number ==
     /\ Idle /\ pc = "number"
-    /\ IF ~eof /\ IsDigit(cur) THEN cell' = Append(cell, cur) /\ Ask("read") /\ UNCHANGED pc
-       ELSE pc' = "cellstart" /\ UNCHANGED <<want, cell>>
-    /\ UNCHANGED <<off, intr, cur, hasCur, stash, eof, consumed, row, rows, yieldedAt, err>>
+    /\ IF ~eof /\ IsDigit(cur)
+       THEN /\ tok' = Append(tok, cur) /\ Ask("read") /\ UNCHANGED <<pc, cell, row, rows, yieldedAt>>
+       ELSE IF tokctx = "cell"
+       THEN /\ cell' = tok /\ pc' = "cellstart" /\ UNCHANGED <<want, tok, row, rows, yieldedAt>>
+       ELSE /\ rows' = Append(rows, Append(row, cell)) /\ yieldedAt' = Append(yieldedAt, off)
+            /\ row' = <<>> /\ cell' = tok /\ pc' = "cellstart" /\ UNCHANGED <<want, tok>>
+    /\ UNCHANGED <<scan, eof, k, tokctx, err>>
 
 \* the newline was consumed: the lexer reads the first token after the row (consume_end), then the row is handed out
 AfterNl ==
     /\ Idle /\ pc = "afternl"
-    /\ IF ~eof /\ IsDigit(cur) THEN pc' = "lookahead" /\ Ask("read") /\ UNCHANGED <<rows, yieldedAt, row, cell>>
+    /\ IF ~eof /\ IsDigit(cur)
+       THEN /\ pc' = "classify" /\ k' = 0 /\ tok' = <<>> /\ tokctx' = "ahead" /\ UNCHANGED <<rows, yieldedAt, row, cell>>
        ELSE \* a structural byte (or end of input) is a complete token already
             /\ rows' = Append(rows, Append(row, cell)) /\ yieldedAt' = Append(yieldedAt, off)
-            /\ row' = <<>> /\ cell' = <<>> /\ pc' = "cellstart" /\ UNCHANGED want
-    /\ UNCHANGED <<off, intr, cur, hasCur, stash, eof, consumed, err>>
-\* lexing the first number of the next row before handing out this one; its digits are kept for that row
-\* (first digit already seen in AfterNl is re-read from `pending`)
-Lookahead ==
-    /\ Idle /\ pc = "lookahead"
-    /\ IF ~eof /\ IsDigit(cur) THEN Ask("read") /\ UNCHANGED <<pc, rows, yieldedAt, row, cell>>
-       ELSE /\ rows' = Append(rows, Append(row, cell)) /\ yieldedAt' = Append(yieldedAt, off)
-            /\ row' = <<>> /\ cell' = <<>> /\ pc' = "resume" /\ UNCHANGED want
-    /\ UNCHANGED <<off, intr, cur, hasCur, stash, eof, consumed, err>>
-\* the token lexed ahead is the first cell of the next row: recover its digits from the consumed bytes
-RECURSIVE DigitsBack(_, _)
-DigitsBack(s, i) == IF i >= 1 /\ IsDigit(s[i]) THEN DigitsBack(s, i - 1) \o <<s[i]>> ELSE <<>>
-Resume ==
-    /\ Idle /\ pc = "resume"
-    /\ cell' = DigitsBack(consumed, Len(consumed)) /\ pc' = "cellstart"
-    /\ UNCHANGED <<off, intr, cur, hasCur, stash, eof, consumed, want, row, rows, yieldedAt, err>>
+            /\ row' = <<>> /\ cell' = <<>> /\ pc' = "cellstart" /\ UNCHANGED lexvars
+    /\ UNCHANGED <<scan, eof, want, err>>
 
 Done == (pc = "done" \/ err # "none") /\ UNCHANGED vars
-Step == ServeFromStash \/ ReadInterrupted \/ ReadOk \/ ReadEof \/ ReadFail \/ Made \/ CellStart \/ Number \/ AfterNl \/ Lookahead \/ Resume \/ Done
+Step == ServeFromStash \/ ReadInterrupted \/ ReadOk \/ ReadEof \/ ReadFail \/ Made \/ CellStart \/ Classify \/ Number \/ AfterNl \/ Done
 Next == Step /\ UNCHANGED <<Data, FailAt>>
-Progress == (ServeFromStash \/ ReadOk \/ ReadEof \/ ReadFail \/ Made \/ CellStart \/ Number \/ AfterNl \/ Lookahead \/ Resume) /\ UNCHANGED <<Data, FailAt>>
+Progress == (ServeFromStash \/ ReadOk \/ ReadEof \/ ReadFail \/ Made \/ CellStart \/ Classify \/ Number \/ AfterNl) /\ UNCHANGED <<Data, FailAt>>
 Spec == Init /\ [][Next]_vars /\ WF_vars(Progress)
 
 ----------------------------------------------------------------------------
